@@ -202,6 +202,12 @@ fn generated(seed: u64, i: u64) -> Scenario {
             payload += size as u64;
             ops.push(Op::Write { track_id: t as u32 + 1, s: SampleSpec { size, fill: rng.next_u64(), duration, cts: 0, sync: rng.bool() } });
         }
+        // one position-mode history in six is finished twice: a write_end in the middle (while
+        // every offset may still fit 32 bits), more samples, and the final write_end
+        if mode == 0 && rng.chance(1, 6) && ops.len() > ntr + 2 {
+            let at = ntr + 1 + rng.usize_below(ops.len() - ntr - 1);
+            ops.insert(at, Op::End);
+        }
         ops.push(Op::End);
         let h = base(ops, mts);
         if !representable(&h) {
@@ -272,6 +278,11 @@ fn eval(id: &str, sc: &Scenario, rep: &mut Report) {
                 }
                 let len = st.len;
                 let _ = st.seek(SeekFrom::Start(sc.start_pos));
+                // what the reader's accessors report for the configuration and the durations
+                // (movie and track duration in particular: they are what crosses 2^32 here)
+                if sc.start_pos == 0 {
+                    fails.extend(check_config(&sc.h, st.clone(), len));
+                }
                 fails.extend(check_readback(&sc.h, st, len));
             }
             None => fails.push(("no_output".into(), json!({}))),
